@@ -219,9 +219,9 @@ class QuadratureRule(object):
             # XXX: we could use a single variable transformation,
             # but this is not good in practice. We get better accuracy
             # by having 0 as an endpoint.
+            g = f
             if (a, b) == (ctx.ninf, ctx.inf):
-                _f = f
-                f = lambda x: _f(-x) + _f(x)
+                g = lambda x: f(-x) + f(x)
                 a, b = (ctx.zero, ctx.inf)
             results = []
             err = ctx.zero
@@ -230,7 +230,7 @@ class QuadratureRule(object):
                 if verbose:
                     print("Integrating from %s to %s (degree %s of %s)" % \
                         (ctx.nstr(a), ctx.nstr(b), degree, max_degree))
-                result = self.sum_next(f, nodes, degree, prec, results, verbose)
+                result = self.sum_next(g, nodes, degree, prec, results, verbose)
                 results.append(result)
                 if degree > 1:
                     err = self.estimate_error(results, prec, epsilon)
